@@ -143,9 +143,7 @@ def deploy_lines(rules, ind=0):
     return out
 
 
-@st.composite
-def _cases(draw):
-    rnd = draw(urandoms())
+def _gen_from(rnd):
     vendor = rnd.choice(sorted(HW))
     model = rnd.choice(HW[vendor])
     case = {"vendor": vendor, "model": model, "do_commit": rnd.chance(50), "do_finalize": rnd.chance(50)}
@@ -163,6 +161,16 @@ def _cases(draw):
         case.update({"kind": "synthetic", "patch": pt, "deploy": gen_deploy(rnd, pt)})
     return case
 
+
+@st.composite
+def _cases(draw):
+    return _gen_from(draw(urandoms()))
+
+
+def fuzz_decode(fdp):
+    """coverage-guided tier: the same generator driven by fuzzer-chosen bytes (vf/core/fuzz_target.py)"""
+    from vf.model.rnd import FdpRandom
+    return _gen_from(FdpRandom(fdp))
 
 def strategy(tier):
     return _cases()
